@@ -770,6 +770,7 @@ static void setup()
 		} while(m <= 5 && n <= 5 && k <= 5);
 		algebra_case(rng, m, n, k);
 	});
+	add_generator("object_histories", ctx().count(1500, 150000), [](Rng& rng, uint64_t i) { la::matrix_history_case(rng, i, false); });
 	build_catalogue();
 	add_generator("unequal_shapes_catalogue", cat.size(), [](Rng&, uint64_t i) { run_request(cat[i]); });
 	add_generator("unequal_shapes_random", ctx().count(400, 20000), random_request);
